@@ -752,3 +752,48 @@ M("C06", PA, """_PREC_COMPARISON = 100
 _PREC_BITWISE_OR = 120""", """_PREC_COMPARISON = 200
 
 _PREC_BITWISE_OR = 120""", "revert of fix 60ad86c (comparison precedence)")
+
+M("C07", PA, """_PREC_PLUS = 210
+_PREC_TIMES = 220""", """_PREC_PLUS = 220
+_PREC_TIMES = 210""", "plus and times precedence swapped")
+M("C07", PA, """            left_exp = primitives.Power(
+                    left_exp, self.parse_expression(pstate, _PREC_TIMES))""", """            left_exp = primitives.Power(
+                    left_exp, self.parse_expression(pstate, _PREC_POWER))""", "power made left-associative")
+M("C07", PA, """            (_lessequal, pytools.lex.RE(r"\\<=")),
+            (_greaterequal, pytools.lex.RE(r"\\>=")),
+            # must be before
+            (_less, pytools.lex.RE(r"\\<")),
+            (_greater, pytools.lex.RE(r"\\>")),""", """            (_less, pytools.lex.RE(r"\\<")),
+            (_greater, pytools.lex.RE(r"\\>")),
+            (_lessequal, pytools.lex.RE(r"\\<=")),
+            (_greaterequal, pytools.lex.RE(r"\\>=")),""", "lexer: < before <=")
+M("C07", PA, """            left_exp = If(condition, then_expr, else_expr)""", """            left_exp = If(condition, else_expr, then_expr)""", "then/else swapped")
+M("C07", PA, """                kwargs[kw] = self.parse_expression(pstate, _PREC_COMMA)""", """                args.append(self.parse_expression(pstate, _PREC_COMMA))""", "kwargs parsed as positional")
+M("C07", PA, """            left_exp = primitives.Remainder(
+                    left_exp, self.parse_expression(pstate, _PREC_TIMES))""", """            left_exp = primitives.Remainder(
+                    left_exp, self.parse_expression(pstate, _PREC_PLUS))""", "% right operand swallows a following *")
+M("C07", PA, """        if not pstate.is_at_end():
+            pstate.raise_parse_error("leftover input after completed parse")""", """        if False:
+            pstate.raise_parse_error("leftover input after completed parse")""", "leftover input ignored")
+M("C07", PA, """            right_exp = self.parse_expression(pstate, _PREC_TIMES)
+            if isinstance(left_exp, primitives.Product):""", """            right_exp = self.parse_expression(pstate, _PREC_PLUS)
+            if isinstance(left_exp, primitives.Product):""", "revert of fix be68ec1 (* right operand)")
+M("C07", PA, """            left_exp = -self.parse_expression(pstate, _PREC_TIMES)  # pylint:disable=invalid-unary-operand-type""",
+  """            left_exp = -self.parse_expression(pstate, _PREC_UNARY)  # pylint:disable=invalid-unary-operand-type""", "revert of fix 14cbeaa (unary minus vs **)")
+M("C07", PA, """            left_exp = LogicalNot(
+                    self.parse_expression(pstate, _PREC_LOGICAL_AND))""", """            left_exp = LogicalNot(
+                    self.parse_expression(pstate, _PREC_UNARY))""", "revert of fix 83ae23e (not)")
+M("C07", PA, """            (_true, pytools.lex.RE(r"True\\b")),""", """            (_true, pytools.lex.RE(r"True")),""", "revert of fix f52607e (True word boundary)")
+M("C07", PA, """            else_expr = self.parse_expression(pstate, _PREC_IF - 1)""", """            else_expr = self.parse_expression(pstate)""", "revert of fix 0819658 (else swallows comma)")
+M("C07", PA, """            if len(comparisons) == 1:
+                left_exp, = comparisons
+            else:
+                left_exp = LogicalAnd(tuple(comparisons))""", """            left_exp = comparisons[0]
+            for c in comparisons[1:]:
+                left_exp = Comparison(left_exp, c.operator, c.right)""", "revert of fix 4e50aee (comparison chains)")
+IA = "pymbolic/interop/ast.py"
+M("C07", IA, """            ast.Invert: p.BitwiseNot,""", """            ast.Invert: _neg,""", "revert of fix 73282b0 (importer ~)")
+M("C07", IA, """            ast.BitOr: _bitwise_or,""", """            ast.BitOr: p.BitwiseOr,""", "revert of fix 5465796 (importer |)")
+M("C07", IA, """def _sub(x, y):
+    return p.Sum((x, p.Product(((-1), y))))""", """def _sub(x, y):
+    return p.Sum((y, p.Product(((-1), x))))""", "importer subtraction operands swapped")
